@@ -57,11 +57,18 @@ Expected(e) ==
 
 Init == l = 1 /\ skip = FALSE /\ g = 0 /\ s = 0 /\ nt = 0 /\ drift = 0 /\ rv = 0
 
+\* the location graph is recorded through falcon's own forward() and backward(); the equations of
+\* the statement ("join of the states of its predecessors") presuppose that they are converse
+Converse(e) == \A i \in 1..e.n : \A j \in 1..e.n : (j \in SeqSet(e.succ[i])) = (i \in SeqSet(e.pred[j]))
+
 Begin(e) ==
-  IF WellFormedProblem(e)
-  THEN /\ g' = l /\ s' = InitState(e) /\ nt' = 0 /\ drift' = 0 /\ rv' = 0 /\ skip' = FALSE
-  ELSE /\ Reject(l, "malformed problem (recorder)", <<>>)
+  IF ~WellFormedProblem(e)
+  THEN /\ Reject(l, "malformed problem (recorder)", <<>>)
        /\ skip' = TRUE /\ UNCHANGED <<g, s, nt, drift, rv>>
+  ELSE IF ~Converse(e)
+  THEN /\ Reject(l, "location graph: forward and backward are not converse", <<>>)
+       /\ skip' = TRUE /\ UNCHANGED <<g, s, nt, drift, rv>>
+  ELSE /\ g' = l /\ s' = InitState(e) /\ nt' = 0 /\ drift' = 0 /\ rv' = 0 /\ skip' = FALSE
 
 JoinEv(e) ==
   IF /\ e.a \in Elems(P.lat) /\ e.b \in Elems(P.lat)
